@@ -689,7 +689,7 @@ pub fn render(m: &Message, t: &mut Tape, o: &RenderOpts) -> Wire {
         let mut params: Vec<String> = Vec::new();
         let push = |params: &mut Vec<String>, name: &str, val: String| {
             // (a duplicate may carry a look-alike of the name: it travels next to the real one)
-            let anchor = |n: &str| n.trim_matches(|c| c == '\u{a0}' || c == '\u{85}').eq_ignore_ascii_case(name);
+            let anchor = |n: &str| n.trim_matches(|c| c == '\u{a0}' || c == '\u{85}' || c == ' ').eq_ignore_ascii_case(name);
             for (n, dv, before) in &q.dup_header_params {
                 if anchor(n) && *before {
                     params.push(format!("{}={}", n, dv));
